@@ -5,6 +5,7 @@ CONSTANTS
   Ids <- Ids2_3
   IdPath <- U2
   THs = {1, 2}
+  LGs = {1}
   MaxHead = 2
   Peers <- JustL
   Legacy <- NoPeer
@@ -13,6 +14,7 @@ CONSTANTS
   FIX_SET_COUNT = TRUE
   FIX_MERGE_UP = TRUE
   FIX_NIL_HASH = TRUE
+  DEV_SAME_COUNT_EQUAL = FALSE
   GenDepth = 4
   GenMany = 0
   GenPick = 0
